@@ -1,6 +1,6 @@
 #!/bin/bash
 # run the thorough tier of the given checks one by one with a per-check time limit (seconds, default 2400)
-cd /verif; lim="${LIMIT:-2400}"
+cd "$(dirname "$(readlink -f "$0")")/.."; lim="${LIMIT:-2400}"
 for id in "$@"; do
   s=$(date +%s); timeout $lim ./check $id --tier thorough > /tmp/thorough_$id.out 2>&1; rc=$?; e=$(date +%s)
   echo "$id rc=$rc $((e-s))s $(grep -c '^VIOLATION' /tmp/thorough_$id.out) violations $(grep -c '^KNOWN-FINDING' /tmp/thorough_$id.out) known | $(grep "^\[$id\]" /tmp/thorough_$id.out | cut -c1-160)"
